@@ -36,9 +36,9 @@ impl AnonymousIngressEngine {
 
   pub fn deregister_pipe(&self, pipe_id: usize) {
     self.queue.deregister_pipe(pipe_id);
-    #[cfg(rzmq_verif)]
-    crate::verif::sched::point("anon.dereg.before_clear");
-    *self.local_cache.lock() = None;
+    // The local cache holds the not-yet-read frames of a message that was already received in
+    // full (possibly from a different pipe than the one going away): dropping it here would hand
+    // the application a truncated message. It is left for recv()/recv_multipart() to drain.
   }
 
   pub fn close(&self) {
